@@ -368,7 +368,7 @@ def m_iter(eng, m, args, dest_ts, st, where):
     return It('src', v, bv(0, 64))
 
 
-@model('Iterator adaptors', r'^<.+ as Iterator>::(map|filter|flatten)(?:::<.*>)?$')
+@model('Iterator adaptors', r'^<.+ as Iterator>::(map|filter|flatten|filter_map)(?:::<.*>)?$')
 def m_adapt(eng, m, args, dest_ts, st, where):
     it = deref(eng, st, args[0])
     k = m.group(1)
@@ -392,12 +392,18 @@ def it_elems(eng, it, st, where, pc):
     if it.kind == 'map':
         for g, x in inner:
             st2 = _sub_state(st, AND(pc, g))
-            out.append((g, eng.call_closure(it.b, [x], st2, where)))
+            out.append((g, eng.call_callable(it.b, [x], st2, where)))
+        return out
+    if it.kind == 'filter_map':
+        for g, x in inner:
+            st2 = _sub_state(st, AND(pc, g))
+            r = eng.call_callable(it.b, [x], st2, where)
+            out.append((AND(g, is_variant(r, 'Some')), payload(r, 'Some')[0]))
         return out
     if it.kind == 'filter':
         for g, x in inner:
             st2 = _sub_state(st, AND(pc, g))
-            keep = eng.call_closure(it.b, [x], st2, where)
+            keep = eng.call_callable(it.b, [x], st2, where)
             out.append((AND(g, keep.t), x))
         return out
     if it.kind == 'flatten':
@@ -613,3 +619,12 @@ def m_hash(eng, m, args, dest_ts, st, where):
         return NotImplemented
     go(ts, x)
     return UNITV
+
+
+@model('Fn::call on a closure', r'^<\{closure@[^}]*\} as Fn(?:Mut|Once)?<.*>>::call(?:_mut|_once)?$')
+def m_fn_call(eng, m, args, dest_ts, st, where):
+    clo = deref(eng, st, args[0])
+    tup = args[1]
+    if not isinstance(clo, Clo) or not isinstance(tup, St):
+        raise Unsupported('Fn::call on %r' % (clo,))
+    return eng.call_closure(clo, list(tup.fs), st, where)
